@@ -15,6 +15,7 @@ Directive language (each directive is a line starting with `//@`):
   //@ impl <src> `<header>` [as `hdr`] [nth=k]   open an impl block;        ... //@ endimpl
   //@ expanded-impl `<header>`          impl block taken from rustc's macro-expanded source
   //@ assoc <Name>                      (inside trait/impl) copy `type Name ...;`
+  //@ fn-absent <name>                  (inside impl) structural obligation: no function of this name in this configuration
   //@ fn <name> [external] [name=Obl]   (inside trait/impl) copy fn <name>, see below
   //@ freefn <src> <name> [external]    copy a free function
       //@ | text                        ghost text: after a `fn`, goes between signature and body;
@@ -464,8 +465,23 @@ class Extractor:
             elif word in ('endimpl', 'endtrait'):
                 self.out.emit('}', 'repo', None, None, None)
                 self.container = None
+                for k_, (oname, present, fname, cheader) in enumerate(getattr(self, 'pending_after_container', [])):
+                    self._absent_n = getattr(self, '_absent_n', 0) + 1
+                    self.out.emit('// structural obligation: `%s` must not exist in `%s` in this feature configuration\nproof fn absent_obligation_%d()\n    ensures %s,\n{}'
+                                  % (fname, norm(cheader), self._absent_n, 'false' if present else 'true'), 'tmpl', 'tmpl::' + oname)
+                self.pending_after_container = []
             elif word == 'assoc':
                 self._assoc(bare[0])
+            elif word == 'fn-absent':
+                # structural obligation: in this configuration the impl must NOT contain a function of this name (a feature-gated setter
+                # that exists without its feature would keep what the statement says is dropped).  Emitted as a proof obligation of its
+                # own so that it is named, counted and reported like every other one: `ensures false` iff the function is there.
+                cw, cit, csrc, crel, cheader = self.container
+                clo, chi = cit.body_span()
+                present = [x for x in csrc.items(clo + 1, chi) if x.kind == 'fn' and x.name == bare[0] and cfg_active(x.attrs, self.cfg)]
+                oname = 'absent::%s' % self._obl_name(cheader, bare[0])
+                self.pending_after_container = getattr(self, 'pending_after_container', [])
+                self.pending_after_container.append((oname, bool(present), bare[0], cheader))
             elif word == 'contract':
                 tl = []
                 self.contracts[bare[0]] = tl
@@ -701,7 +717,17 @@ class Extractor:
         from the source, forwarding bodies copied and verified, plus one generic identity obligation each"""
         src = self.expanded_provider()
         mod = src.find('mod', modname)
-        impls = [x for x in src.items(mod.body_open + 1, mod.end - 1) if x.kind == 'impl' and ' TypeInfo for ' in x.header]
+        # impls of the module AND of its nested modules (`#[cfg(feature = "bit-vec")] mod bit_vec` holds three more): every
+        # `impl TypeInfo` the file contributes in this configuration gets its identity obligation
+        impls = []
+        stack = [(mod.body_open + 1, mod.end - 1)]
+        while stack:
+            l_, h_ = stack.pop(0)
+            for x in src.items(l_, h_):
+                if x.kind == 'impl' and ' TypeInfo for ' in x.header:
+                    impls.append(x)
+                elif x.kind == 'mod' and x.body_open is not None and cfg_active(x.attrs, self.cfg):
+                    stack.append((x.body_open + 1, x.end - 1))
         if not impls:
             raise LostAnchor('no TypeInfo impls found in expanded mod %s' % modname)
         k = 0
@@ -748,8 +774,8 @@ class Extractor:
             else:
                 if selfty == 'PhantomData<T>':
                     body = fn_txt[fn_txt.index('{'):]
-                    if re.search(r'\bT\b', ''.join(c for c, mk in zip(body, code_mask(body)) if mk)):
-                        raise LostAnchor('PhantomData<T>::type_info mentions T: its result may depend on T (C16 coherence not decidable syntactically)')
+                    if re.search(r'\b(?:T|Self)\b', ''.join(c for c, mk in zip(body, code_mask(body)) if mk)):
+                        raise LostAnchor('PhantomData<T>::type_info mentions T or Self: its result may depend on T (C16 coherence not decidable syntactically)')
                     self.out.emit('    closed spec fn spec_info() -> Type<MetaForm> { phantom_info() }', 'tmpl', name)
                 else:
                     self.out.emit('    closed spec fn spec_info() -> Type<MetaForm> { info_of_type::<Self>() }', 'tmpl', name)
@@ -785,8 +811,13 @@ class Extractor:
             indent = ''
         elif kind == 'twinfn':
             rel, hdr = free_src
-            src = self.src(rel)
-            cit = src.find_impl(hdr, cfg=self.cfg)
+            if rel == 'expanded':
+                # the impl is produced by a macro: text from rustc's expansion of the working tree
+                src, cit = self._find_expanded_impl(hdr)
+                rel = 'rustc-expanded:src/lib.rs'
+            else:
+                src = self.src(rel)
+                cit = src.find_impl(hdr, cfg=self.cfg)
             lo, hi = cit.body_span()
             it = src.find('fn', spec.name, lo + 1, hi, cfg=self.cfg)
             oname = spec.obl or self._obl_name(norm(hdr), spec.name)
